@@ -18,12 +18,18 @@ def main():
         os.makedirs(c["out"], exist_ok=True)
         prog = defx.Program(c["files"], c.get("root", "root.yaml"))
         root = prog.write(c["src"])
+        if spec.get("relative"):
+            # the root file named by a relative path with a directory part, from the directory above the sources
+            os.chdir(os.path.dirname(c["src"]))
+            root = os.path.relpath(root)
         try:
             valx.compile_file(root, c["name"], c["out"], black=c.get("black", True), python=True, javascript=True, matlab=True, c_lang=True,
                               info=True, combined=True, **c.get("kw", {}))
             res[str(c["id"])] = "ok"
         except Exception as e:
             res[str(c["id"])] = f"{type(e).__name__}: {str(e)[:200]}"
+        finally:
+            os.chdir(spec["cwd"])
     print(json.dumps(res))
 
 
